@@ -69,7 +69,8 @@ static DBusHandlerResult filter_fn (DBusConnection *c, DBusMessage *m, void *dat
   if (dbus_message_is_signal (m, "org.freedesktop.DBus.Local", "Disconnected")) { ob_puts (&logb, "DISCONNECTED;"); return DBUS_HANDLER_RESULT_HANDLED; }
   nmsgs++;
   ob_printf (&logb, "%d:%s:%u:%08x;", dbus_message_get_type (m), dbus_message_get_member (m) ? dbus_message_get_member (m) : "-", dbus_message_get_serial (m), body_hash (m));
-  return DBUS_HANDLER_RESULT_HANDLED;
+  /* method calls are left to libdbus, which answers them with an error: the reader then has something to WRITE to this peer */
+  return dbus_message_get_type (m) == DBUS_MESSAGE_TYPE_METHOD_CALL ? DBUS_HANDLER_RESULT_NOT_YET_HANDLED : DBUS_HANDLER_RESULT_HANDLED;
 }
 
 static dbus_bool_t allow_user (DBusConnection *c, unsigned long uid, void *data) { (void) c; (void) uid; (void) data; return TRUE; }
@@ -142,18 +143,21 @@ static void cmd_serve (int argc, char **argv)
   ob_printf (&out, "OK accepted=%d", conn != NULL);
 }
 
+/* W <hex> : write, then let the server side run.  WCLOSE <hex> : write everything, close the client end, and only THEN let the
+ * server side run (it finds data and the hang-up at the same time). */
 static void cmd_w (int argc, char **argv)
 {
-  size_t n, off = 0; unsigned char *buf;
+  size_t n, off = 0; unsigned char *buf; int then_close = !strcmp (argv[0], "WCLOSE");
   if (argc < 2 || cli < 0 || !(buf = unhex (argv[1], &n))) { ob_puts (&out, "ERR badargs"); return; }
   while (off < n)
     {
       ssize_t r = send (cli, buf + off, n - off, MSG_NOSIGNAL | MSG_DONTWAIT);
       if (r > 0) { off += (size_t) r; continue; }
-      if (r < 0 && (errno == EAGAIN || errno == EWOULDBLOCK)) { pump (); continue; }
+      if (r < 0 && (errno == EAGAIN || errno == EWOULDBLOCK) && !then_close) { pump (); continue; }
       break;
     }
   free (buf);
+  if (then_close) { close (cli); cli = -1; }
   pump ();
   ob_printf (&out, "OK wrote=%zu n=%d", off, nmsgs);
 }
@@ -170,7 +174,7 @@ int main (void)
       n = split_args (line, a, 8);
       if (n == 0) { ob_puts (&out, "ERR empty"); reply (&out); continue; }
       if (!strcmp (a[0], "SERVE")) cmd_serve (n, a);
-      else if (!strcmp (a[0], "W")) cmd_w (n, a);
+      else if (!strcmp (a[0], "W") || !strcmp (a[0], "WCLOSE")) cmd_w (n, a);
       else if (!strcmp (a[0], "LOG")) { pump (); ob_printf (&out, "OK connected=%d n=%d log=%s", conn ? (int) dbus_connection_get_is_connected (conn) : -1, nmsgs, logb.len ? logb.s : "-"); }
       else if (!strcmp (a[0], "END")) { teardown (); ob_puts (&out, "OK"); }
       else if (!strcmp (a[0], "QUIT")) { teardown (); ob_puts (&out, "BYE"); reply (&out); break; }
